@@ -72,6 +72,8 @@ def gen_case(rng, kind):
             cols = cols[::-1]
     spec = gf.frame_spec(rng, cols, n, "default")
     spec["geometry"] = "g1"
+    if rng.random() < 0.06:
+        spec["reserved_named_columns"] = [["hilbert_distance"], ["_partition"]][int(rng.integers(2))]
     k = int(rng.integers(1, 17)) if rng.random() < 0.5 else int(rng.integers(1, max(2, n // 2) + 1))
     npin = int(rng.integers(1, 5)) if (n < 13 or rng.random() < 0.6) else int(rng.choice([11, 12, 13]))
     return {"spec": spec, "kind": kind, "npin": npin, "npartitions": k if npin < 11 else int(rng.integers(1, 4)),
@@ -201,6 +203,13 @@ def check_case(ctx, case):
                                     and os.path.realpath(c).startswith(inside) and not os.path.isdir(c))
                     ctx.extra.setdefault("fs_log_entries_without_syscall", 0)
                     ctx.extra["fs_log_entries_without_syscall"] += len(unseen)
+            if not ok and spec.get("reserved_named_columns") and isinstance(res, ValueError) \
+                    and spec["reserved_named_columns"][0] in str(res):
+                # the frame uses the name of a helper column: refusing it loudly is fine, losing the
+                # user's column silently is not
+                ctx.count("evaluations")
+                ctx.count("rejected_reserved_column_name")
+                return
             if not ok:
                 ctx.count("evaluations")
                 ctx.count("raised")
